@@ -2,6 +2,9 @@ package props
 
 import (
 	"fmt"
+	"go/types"
+	"regexp"
+	"sort"
 	"strings"
 
 	"golang.org/x/tools/go/ssa"
@@ -16,7 +19,7 @@ func init() { Registry["C06"] = C06 }
 func C06(p *ir.Program, r *report.R) {
 	c := C{p, r}
 	r.Floor = 30
-	r.Explain = "Decided (very narrow; the conservation equation itself is arithmetic over runtime values and a cgo curve library and is NOT decided): (B1) an unbalanced confidential transaction cannot be accepted unless the acceptance path skips the balance/range checks — every nil return of UTXOTransaction.CheckBasic is dominated by successful checkTxSemantic and checkCommitEqual, and, as all-paths properties, by checkRctSigData when confidential parts exist, by the range-proof check when there are confidential outputs and by the ring-signature check when there are confidential inputs; checkCommitEqual's nil return is dominated by equality of the input and output commitment sums (both non-empty) and every account-side input/output iteration passes the amount-commitment equality; block processing admits a confidential transaction only through a cache hit or a successful basic check, processBlock stops when verification fails, Process checks fee adequacy (CheckStoreState) before executing; (B2) a failed call moves nothing but fees — the snapshot is taken after preTransit and before transitInputs, refundGas reverts to that same snapshot on every vmerr path before any refund, all balance checks of transitInputs precede the first debit. ADDED after seeded-change testing: amount width — BigInt2Hash's byte loop runs while i < 8 and a value still positive afterwards is rejected with no companion test other than i == 8 / i >= 8 (no truncation modulo 2^64); CheckStoreState and checkState admit an account input only when the balance OF THE TRANSACTION'S TOKEN covers the amount and, for non-native tokens, the native balance covers the fee; checkRctSigData succeeds only with exactly one output commitment per confidential output and one ring signature per confidential input; payTransferGas reports 0 on its error path. NOT decided: fee arithmetic, EVM/WASM transfers, conservation sums, Bulletproof/commitment soundness."
+	r.Explain = "Decided (very narrow; the conservation equation itself is arithmetic over runtime values and a cgo curve library and is NOT decided): (B1) an unbalanced confidential transaction cannot be accepted unless the acceptance path skips the balance/range checks — every nil return of UTXOTransaction.CheckBasic is dominated by successful checkTxSemantic and checkCommitEqual, and, as all-paths properties, by checkRctSigData when confidential parts exist, by the range-proof check when there are confidential outputs and by the ring-signature check when there are confidential inputs; checkCommitEqual's nil return is dominated by equality of the input and output commitment sums (both non-empty) and every account-side input/output iteration passes the amount-commitment equality; block processing admits a confidential transaction only through a cache hit or a successful basic check, processBlock stops when verification fails, Process checks fee adequacy (CheckStoreState) before executing; (B2) a failed call moves nothing but fees — the snapshot is taken after preTransit and before transitInputs, refundGas reverts to that same snapshot on every vmerr path before any refund, all balance checks of transitInputs precede the first debit. ADDED after seeded-change testing: amount width — BigInt2Hash's byte loop runs while i < 8 and a value still positive afterwards is rejected with no companion test other than i == 8 / i >= 8 (no truncation modulo 2^64); CheckStoreState and checkState admit an account input only when the balance OF THE TRANSACTION'S TOKEN covers the amount and, for non-native tokens, the native balance covers the fee; checkRctSigData succeeds only with exactly one output commitment per confidential output and one ring signature per confidential input; payTransferGas reports 0 on its error path. VALUE LEDGER (added while deepening): every StateDB.{Add,Sub,Set}[Token]Balance call of app/types/vm (34 sites) is either half of a debit+credit pair with the same SSA token and amount and different accounts whose debit is covered by a balance check, or a reviewed table entry whose account, token, amount, state and guards still have the reviewed form (gas bought / refunded / collected at the par price, inputs debited / outputs credited with the same tx.Value(), credit-only primitives used at call depth 0 only and entered from the transaction layer only, issue with account==token and amount>0, self-destruct crediting the holdings of the account it then removes, mempool check-state debits); a new site is reported as unreviewed NOT decided: fee arithmetic, EVM/WASM transfers, conservation sums, Bulletproof/commitment soundness."
 	r.Trusted = []string{"ringct / xcrypto (cgo)", "CalNewAmountGas fee schedule"}
 
 	// ---- B1: CheckBasic ---------------------------------------------------------
@@ -335,7 +338,6 @@ func C06(p *ir.Program, r *report.R) {
 		r.Check("K11", name+"/single-success-return", p.Pos(fn.Pos()), nOK == 1, fmt.Sprintf("%d success returns", nOK))
 	}
 
-
 	// ---- the account side of a confidential transaction is covered by the right balance -----------
 	// CheckStoreState (block path) and checkState (mempool path) admit an account input only when the
 	// sender holds at least input.Amount OF THE TRANSACTION'S TOKEN, and — for a non-native token — the
@@ -401,6 +403,286 @@ func C06(p *ir.Program, r *report.R) {
 		c.MustFind("K1", name+"/error-return", fn, n, "error return")
 	}
 
+	// ---- value ledger ---------------------------------------------------------------------------------------
+	c06Ledger(c)
+	c06Flows(c)
+}
+
+// c06Flows: the flows that connect the reviewed ledger sites.
+func c06Flows(c C) {
+	p, r := c.P, c.R
+	// (1) transfer primitives are reached through the VM context's function fields: every store to those
+	// fields installs the package's own primitive, every call through .Transfer is covered by
+	// .CanTransfer of the same state, sender, token and amount on every path (or happens at depth 0,
+	// where the transaction layer has checked and debited the inputs), every call through
+	// .UnsafeTransfer happens at depth 0 or in the depth-0 entry UnsafeCall
+	for _, vmPkg := range []struct{ rel, typ string }{{"vm/evm", "evm"}, {"vm/wasm", "wasm"}} {
+		for _, fld := range []string{"Transfer", "UnsafeTransfer", "CanTransfer"} {
+			fv := p.Field(vmPkg.rel, "Context."+fld)
+			n := 0
+			for _, st := range p.Stores(fv) {
+				if strings.HasSuffix(p.Pos(st.Fn.Pos()), "_test.go") {
+					continue
+				}
+				n++
+				v := ir.Render(st.Val)
+				// vm/runtime builds an EVM context with the EVM primitives
+				okv := v == "closure:"+vmPkg.typ+"."+fld || v == vmPkg.typ+"."+fld || strings.HasSuffix(v, "."+fld) && (strings.Contains(v, "evm.") || strings.Contains(v, "wasm."))
+				r.Check("K3", "value-ledger/primitive/"+vmPkg.rel+".Context."+fld+"/"+ir.FuncName(st.Fn), p.InstrPos(st.Instr), okv, "the context field holds the package's own primitive: "+short(v, 80))
+			}
+			r.Check("K3", "value-ledger/primitive/"+vmPkg.rel+".Context."+fld+"/stores", "-", n >= 1, fmt.Sprintf("%d stores", n))
+		}
+		nT, nU := 0, 0
+		// entries used by the transaction layer only (callers checked below): they run at depth 0 by construction
+		depth0Entry := map[string]bool{"UTXOCall": true}
+		if vmPkg.typ == "wasm" {
+			depth0Entry["Create"] = true // no WASM API creates contracts from inside a contract
+		}
+		for _, f := range p.Funcs {
+			if f.Pkg == nil || ir.RelPkg(f.Pkg.Pkg) != vmPkg.rel || f.Blocks == nil || strings.HasSuffix(p.Pos(f.Pos()), "_test.go") {
+				continue
+			}
+			for _, b := range f.Blocks {
+				for _, in := range b.Instrs {
+					call, ok := in.(*ssa.Call)
+					if !ok {
+						continue
+					}
+					name := ir.CalleeName(call)
+					switch {
+					case strings.HasPrefix(name, "dyn:") && strings.HasSuffix(name, ".Context.Transfer"):
+						nT++
+						args := call.Call.Args
+						if len(args) != 5 {
+							r.Check("K1", "value-ledger/transfer-covered/"+ir.FuncName(f), p.InstrPos(in), false, "unexpected arity")
+							continue
+						}
+						can := "dyn:" + vmPkg.typ + ".Context.CanTransfer(" + ir.Render(args[0]) + "," + ir.Render(args[1]) + "," + ir.Render(args[3]) + "," + ir.Render(args[4]) + ")"
+						okc, tr := ir.EveryPathHas(in, can, "eq("+vmPkg.typ+".depth,0)")
+						r.Check("K1", "value-ledger/transfer-covered/"+ir.FuncName(f), p.InstrPos(in), okc, fmt.Sprintf("every path to the transfer passed %s (or runs at depth 0, where the transaction layer debited the inputs); offending path %v", short(can, 160), tr))
+					case strings.HasPrefix(name, "dyn:") && strings.HasSuffix(name, ".Context.UnsafeTransfer"):
+						nU++
+						fs := ir.FactsAt(in)
+						okd := ir.HasFact(fs, "eq("+vmPkg.typ+".depth,0)") || depth0Entry[f.Name()]
+						r.Check("K1", "value-ledger/credit-only-at-depth-0/"+ir.FuncName(f), p.InstrPos(in), okd, "the credit-only primitive is used at call depth 0 only (the transaction layer debited the inputs)")
+					}
+				}
+			}
+		}
+		r.Check("K1", "value-ledger/"+vmPkg.rel+"/primitive-uses", "-", nT >= 1 && nU >= 2, fmt.Sprintf("%d Transfer and %d UnsafeTransfer uses (confirmed by hand: evm 2 and 2, wasm 1 and 2)", nT, nU))
+		// the depth-0 entries are entered from the transaction layer only
+		for name := range depth0Entry {
+			uc := p.TryFunc(vmPkg.rel, strings.ToUpper(vmPkg.typ)+"."+name)
+			if uc == nil {
+				r.Check("K3", "value-ledger/depth-0-entry/"+vmPkg.rel+"."+name, "-", false, "entry not found")
+				continue
+			}
+			n := 0
+			for _, cs := range p.CallSites(uc.Object().(*types.Func)) {
+				if strings.HasSuffix(p.Pos(cs.Fn.Pos()), "_test.go") {
+					continue
+				}
+				n++
+				pk := ir.RelPkg(cs.Fn.Pkg.Pkg)
+				r.Check("K3", "value-ledger/depth-0-entry/"+vmPkg.rel+"."+name+"/caller:"+ir.FuncName(ir.EnclosingTop(cs.Fn)), p.InstrPos(cs.Instr.(ssa.Instruction)), pk == "app" || pk == "vm/runtime", "entered from the transaction layer only")
+			}
+			// calls through the vm.VmInterface from package app are the expected way in
+			if m := p.TryObj("vm", "VmInterface."+name); m != nil {
+				for _, cs := range p.CallSites(m.(*types.Func)) {
+					if strings.HasSuffix(p.Pos(cs.Fn.Pos()), "_test.go") {
+						continue
+					}
+					n++
+					pk := ir.RelPkg(cs.Fn.Pkg.Pkg)
+					r.Check("K3", "value-ledger/depth-0-entry/vm.VmInterface."+name+"/caller:"+ir.FuncName(ir.EnclosingTop(cs.Fn)), p.InstrPos(cs.Instr.(ssa.Instruction)), pk == "app" || pk == "vm/runtime", "entered from the transaction layer only")
+				}
+			}
+		}
+	}
+
+	// (2) fees: what is collected is what was bought minus what was refunded
+	{
+		pt := p.Func("app", "processTransaction.postTransit")
+		nFee, nGas := 0, 0
+		for _, st := range p.Stores(p.Field("app", "TransitionResult.Fee")) {
+			if strings.HasSuffix(p.Pos(st.Fn.Pos()), "_test.go") || st.Kind != "store" {
+				continue
+			}
+			nFee++
+			v := ir.Render(st.Val)
+			r.Check("K11", "value-ledger/fee/used-gas-times-price/"+ir.FuncName(ir.EnclosingTop(st.Fn)), p.InstrPos(st.Instr),
+				ir.Match("big.Int.Mul(*,big.Int.SetUint64(*,(tx.InitialGas - tx.Gas)),tx.GasPrice)", v), "res.Fee = (InitialGas - Gas) * GasPrice: "+short(v, 160))
+		}
+		for _, st := range p.Stores(p.Field("app", "TransitionResult.Gas")) {
+			if strings.HasSuffix(p.Pos(st.Fn.Pos()), "_test.go") || st.Kind != "store" {
+				continue
+			}
+			nGas++
+			v := ir.Render(st.Val)
+			r.Check("K11", "value-ledger/fee/used-gas/"+ir.FuncName(ir.EnclosingTop(st.Fn)), p.InstrPos(st.Instr), v == "(tx.InitialGas - tx.Gas)", "res.Gas = InitialGas - Gas: "+short(v, 120))
+		}
+		r.Check("K11", "value-ledger/fee/result-fields", p.Pos(pt.Pos()), nFee >= 1 && nGas >= 1, fmt.Sprintf("%d stores of res.Fee, %d of res.Gas", nFee, nGas))
+		// the reported figures are taken after the refund changed tx.Gas for the last time
+		c.Order("app.(*processTransaction).postTransit", pt, "app.processTransaction.refundGas", "app.processTransaction.genTransitTxRecord")
+		// InitialGas is what buyGas charges: wherever a processTransaction gets its gas, InitialGas gets the same value
+		nInit := 0
+		gasStores := p.Stores(p.Field("app", "processTransaction.Gas"))
+		for _, st := range p.Stores(p.Field("app", "processTransaction.InitialGas")) {
+			if strings.HasSuffix(p.Pos(st.Fn.Pos()), "_test.go") {
+				continue
+			}
+			nInit++
+			v := ir.Render(st.Val)
+			same := false
+			for _, g := range gasStores {
+				if g.Fn == st.Fn && g.Kind == st.Kind && ir.Render(g.Val) == v && ir.Render(g.Base) == ir.Render(st.Base) {
+					same = true
+				}
+			}
+			r.Check("K5", "value-ledger/fee/initial-gas-is-bought-gas/"+ir.FuncName(st.Fn), p.InstrPos(st.Instr), same, "InitialGas and Gas start from the same value: "+short(v, 80))
+		}
+		r.Check("K5", "value-ledger/fee/initial-gas-stores", "-", nInit >= 5, fmt.Sprintf("%d constructors set InitialGas (confirmed by hand: 6)", nInit))
+		// the only admissible gas price is the par price the block fee is computed with
+		for _, tn := range []string{"Transaction", "TokenTransaction"} {
+			fn := p.Func("types", tn+".IllegalGasLimitOrGasPrice")
+			n := 0
+			for _, rt := range ir.Returns(fn) {
+				if ir.AbstractResult(rt.Results[0]) == "true" {
+					continue
+				}
+				n++
+				c.Guards("types.(*"+tn+").IllegalGasLimitOrGasPrice", "accept", rt.Instr, G{"par-price", "eq(big.Int.Cmp(types." + tn + ".GasPrice(tx),big.NewInt(100000000000)),0)"})
+			}
+			c.MustFind("K1", "types.(*"+tn+").IllegalGasLimitOrGasPrice/accept", fn, n, "accepting return")
+		}
+		r.Check("K11", "value-ledger/fee/par-price-constant", "-", fmt.Sprint(c.ConstInt("types", "ParGasPrice")) == "100000000000", "ParGasPrice is the constant the rules above name")
+	}
+
+	// (3) the transaction layer moves what the transaction says: for every account transaction kind the
+	// single input's value and the single output's amount are the same tx.Value()
+	{
+		gt := p.Func("app", "GenerateTransaction")
+		type ev struct {
+			pos  int
+			kind string
+			val  string
+			in   ssa.Instruction
+		}
+		var evs []ev
+		for _, st := range p.Stores(p.Field("app", "txInput.Value")) {
+			if ir.EnclosingTop(st.Fn) == gt {
+				evs = append(evs, ev{int(st.Instr.Pos()), "in", ir.Render(st.Val), st.Instr})
+			}
+		}
+		for _, st := range p.Stores(p.Field("app", "txOutput.Amount")) {
+			if ir.EnclosingTop(st.Fn) == gt {
+				evs = append(evs, ev{int(st.Instr.Pos()), "out", ir.Render(st.Val), st.Instr})
+			}
+		}
+		sort.Slice(evs, func(i, j int) bool { return evs[i].pos < evs[j].pos })
+		last, nOut := "", 0
+		for _, e := range evs {
+			if e.kind == "in" {
+				last = e.val
+				continue
+			}
+			if strings.Contains(e.val, "OutputData") {
+				continue // confidential transaction: balanced by commitments (checkCommitEqual rules)
+			}
+			nOut++
+			r.Check("K5", "value-ledger/generate/output-equals-input", p.InstrPos(e.in), e.val == last && regexp.MustCompile(`^types\.\w+\.Value\(`).MatchString(e.val), "the credited amount is the debited value: in "+short(last, 60)+" out "+short(e.val, 60))
+		}
+		r.Check("K5", "value-ledger/generate/outputs", p.Pos(gt.Pos()), nOut >= 3, fmt.Sprintf("%d account outputs built (confirmed by hand: 3)", nOut))
+	}
+
+	// (4) self-destruct: after crediting every holding the contract is removed, so nothing is counted twice
+	for _, sd := range []struct{ rel, fn, suicide string }{{"vm/evm", "opSuicide", "*StateDB.Suicide"}, {"vm/wasm", "tcSelfDestruct", "*StateDB.Suicide"}} {
+		fn := p.Func(sd.rel, sd.fn)
+		adds := ir.Calls(fn, "*StateDB.AddTokenBalance")
+		su := ir.Calls(fn, sd.suicide)
+		if !c.MustFind("K2", "value-ledger/self-destruct/"+sd.fn+"/calls", fn, len(adds)*len(su), "AddTokenBalance and Suicide") {
+			continue
+		}
+		addr := Arg(su[0], 1)
+		okSrc := strings.Contains(Arg(adds[0], 2), "GetTokenBalances("+Arg(su[0], 0)+","+addr+")")
+		r.Check("K5", "value-ledger/self-destruct/"+sd.fn+"/holdings-of-the-removed-account", p.InstrPos(adds[0]), okSrc, "what is credited are the holdings of the account that is removed: "+short(addr, 100))
+		// every normal return passes Suicide
+		for _, rt := range ir.Returns(fn) {
+			if !ir.Precedes(adds[0].(ssa.Instruction), rt.Instr) && !reaches(adds[0].(ssa.Instruction), rt.Instr) {
+				continue
+			}
+			found, _, tr := ir.FindPath(ir.PathQuery{From: ir.At(adds[0].(ssa.Instruction)), Target: func(x ssa.Instruction) bool { return x == rt.Instr },
+				Avoid: func(x ssa.Instruction) bool { return x == su[0].(ssa.Instruction) }})
+			r.Check("K2", "value-ledger/self-destruct/"+sd.fn+"/removed-after-credit", p.InstrPos(rt.Instr), !found, fmt.Sprintf("no return after a credit without Suicide(addr); offending path %v", tr))
+		}
+		// the loop credits every element
+		okLoop := false
+		for _, l := range ir.Loops(fn) {
+			if l.Body[adds[0].(ssa.Instruction).Block()] {
+				okLoop = true
+			}
+		}
+		r.Check("K2", "value-ledger/self-destruct/"+sd.fn+"/credit-in-loop", p.InstrPos(adds[0]), okLoop, "the credit runs once per holding")
+	}
+}
+
+func reaches(a, b ssa.Instruction) bool {
+	found, _, _ := ir.FindPath(ir.PathQuery{From: ir.At(a), Target: func(x ssa.Instruction) bool { return x == b }})
+	return found
+}
+
+func c06Ledger(c C) {
+	p, r := c.P, c.R
+	sites := ledgerSites(p, map[string]bool{"app": true, "types": true, "vm/evm": true, "vm/wasm": true, "vm": true, "mempool": true, "consensus": true, "blockchain": true, "utxo": true, "state": true})
+	pairUp(sites)
+	nPair, nTab := 0, 0
+	seen := map[string]bool{}
+	for _, s := range sites {
+		in := s.call.(ssa.Instruction)
+		fname := ir.FuncName(ir.EnclosingTop(s.fn))
+		if strings.HasPrefix(fname, "state.") {
+			continue // the StateDB's own wrappers around the state objects
+		}
+		tn := "native"
+		if s.token {
+			tn = "token"
+		}
+		key := fname + "/" + s.kind + "-" + tn
+		switch s.cls {
+		case "pair":
+			nPair++
+			r.Check("K5", "value-ledger/pair/"+key, p.InstrPos(in), true, "debit and credit of one transfer: same token, same amount, different accounts: "+s.String())
+			if s.kind == "sub" {
+				// the debit is covered: in the function, or at every caller of a transfer primitive (checked below)
+				cover := "le(0,big.Int.Cmp(types.StateDB.Get*Balance(" + Arg(s.call, 0) + "," + s.acct + "*)," + s.amt + "))"
+				_, isParam := operandArgs(s.call)[1].(*ssa.Parameter)
+				r.Check("K1", "value-ledger/pair/"+key+"/covered", p.InstrPos(in), isParam || ir.HasFact(ir.FactsAt(in), cover), "the debited account holds the amount (or the primitive's callers check it): "+cover)
+			}
+		case "pair-mismatch":
+			r.Check("K5", "value-ledger/pair/"+key, p.InstrPos(in), false, "a debit followed by a credit with a different token or amount: "+s.String())
+		default:
+			e, ok := ledgerTable[key]
+			if !ok {
+				r.Check("K3", "value-ledger/unreviewed/"+key, p.InstrPos(in), false, "a new balance-changing site outside the reviewed ledger: "+s.String())
+				continue
+			}
+			nTab++
+			seen[key] = true
+			good := ir.Match(e.acct, s.acct) && ir.Match(e.amt, s.amt) && (e.tok == "" || ir.Match(e.tok, s.tok)) && ir.Match(e.db, Arg(s.call, 0)) && (!e.acctIsTok || s.acct == s.tok)
+			r.Check("K3", "value-ledger/site/"+key, p.InstrPos(in), good, e.why+": "+s.String()+" on "+short(Arg(s.call, 0), 60))
+			fs := ir.FactsAt(in)
+			for _, g := range e.guards {
+				g2 := strings.ReplaceAll(g, "AMT", s.amt)
+				r.Check("K1", "value-ledger/site/"+key+"/guard:"+short(g, 40), p.InstrPos(in), ir.HasFact(fs, g2), "holds at the site: "+short(g2, 200))
+			}
+		}
+	}
+	for k := range ledgerTable {
+		if !seen[k] {
+			r.Check("K3", "value-ledger/site/"+k, "-", false, "reviewed ledger site not found (moved or renamed: review the ledger)")
+		}
+	}
+	r.Check("K3", "value-ledger/sites", "-", nPair >= 16 && nTab >= 18, fmt.Sprintf("%d paired and %d reviewed balance-changing sites (confirmed by hand: 16 and 18)", nPair, nTab))
 }
 
 var _ = report.Discharged
